@@ -559,6 +559,58 @@ func VerifC02Generic() {
 	c02CheckOpt(g, false, false)
 }
 
+// generic acyclic family, four nodes (thorough): a<b<c<d, every subset of the 14 forward edges, optional branches
+func VerifC02Generic4() {
+	nodes := []string{"a", "b", "c", "d"}
+	g := &vG{nodes: nodes}
+	var cands [][2]string
+	for _, n := range nodes {
+		cands = append(cands, [2]string{START, n})
+	}
+	for i, n := range nodes {
+		for _, m := range nodes[i+1:] {
+			cands = append(cands, [2]string{n, m})
+		}
+		cands = append(cands, [2]string{n, END})
+	}
+	for _, e := range cands {
+		if vchoose("edge", 2) == 1 {
+			g.edges = append(g.edges, e)
+		}
+	}
+	switch vchoose("branch", 3) {
+	case 1:
+		g.branches = []vBranch{{"a", []string{"b", "c"}}}
+	case 2:
+		g.branches = []vBranch{{START, []string{"a", "b"}}, {"b", []string{"d", END}}}
+	}
+	// outside the claim, as in the three-node family: a plain edge next to a branch arm between the same two nodes, and
+	// nodes without an incoming connection
+	for _, b := range g.branches {
+		for _, t := range b.targets {
+			for _, e := range g.edges {
+				vassume(!(e[0] == b.from && e[1] == t))
+			}
+		}
+	}
+	vassume(len(g.edges) >= 3)
+	for _, n := range g.nodes {
+		in, out := false, false
+		for _, e := range g.edges {
+			in = in || e[1] == n
+			out = out || e[0] == n
+		}
+		for _, b := range g.branches {
+			out = out || b.from == n
+			for _, t := range b.targets {
+				in = in || t == n
+			}
+		}
+		vassume(in && out)
+	}
+	c02CheckOpt(g, false, false)
+}
+
 func VerifC02MultiChoice() { c01MultiChoice(true) }
 
 type c02In struct{ X int }
